@@ -220,7 +220,7 @@ pub fn subs() -> Vec<Sub> {
 }
 
 pub fn run(env: &mut Env) -> RunResult {
-    let n = env.tier.sel(6_000, 150_000);
+    let n = env.tier.sel(6_000, 90_000);
     env.run_tapes(SUB_V3, n, 96)?;
     env.run_tapes(SUB_V5, n * 2, 200)?;
     env.run_tapes(SUB_T3, n / 2, 96)?;
